@@ -21,17 +21,28 @@ Definition inf_threshold : Z := 2 ^ 1024 - 2 ^ 970.
 Definition is_integer_spelling (s : spelling) : bool :=
   match s with SDec _ None None => true | SDec _ _ _ => false | SHex _ | SBin _ => true end.
 
-(* mantissa * 10^e10 / 10^scale < threshold, with a shortcut that keeps the exponent small *)
-Definition dec_finite (ip : list Z) (frac : option (list Z)) (exp : option (bool * list Z)) : bool :=
+(* the exact question: is  mantissa * 10^(+-e) / 10^scale  below the threshold *)
+Definition dec_finite_exact (ip : list Z) (frac : option (list Z)) (exp : option (bool * list Z)) : bool :=
   let fd := match frac with Some f => f | None => [] end in
   let mant := val 10 (ip ++ fd) in
   let scale := Z.of_nat (length fd) in
   let '(neg, e) := match exp with Some (n, ds) => (n, val 10 ds) | None => (false, 0) end in
+  if neg then mant <? inf_threshold * 10 ^ (scale + e)
+  else if scale <=? e then mant * 10 ^ (e - scale) <? inf_threshold else mant <? inf_threshold * 10 ^ (scale - e).
+
+(* the same with two shortcuts that keep the powers small when the exponent is astronomically large; they are sound
+   because a mantissa of d digits is below 10^d (and at least 1 when it is not 0): see dec_finite_correct *)
+Definition dec_finite (ip : list Z) (frac : option (list Z)) (exp : option (bool * list Z)) : bool :=
+  let fd := match frac with Some f => f | None => [] end in
+  let mant := val 10 (ip ++ fd) in
+  let scale := Z.of_nat (length fd) in
+  let digits := Z.of_nat (length (ip ++ fd)) in
+  let '(neg, e) := match exp with Some (n, ds) => (n, val 10 ds) | None => (false, 0) end in
   if mant =? 0 then true
   else if neg then
-    (if 400 <? e then true else mant <? inf_threshold * 10 ^ (scale + e))
+    (if digits <? e then true else mant <? inf_threshold * 10 ^ (scale + e))
   else
-    (if 400 <? e - scale then false else
+    (if 400 + scale <? e then false else
        if scale <=? e then mant * 10 ^ (e - scale) <? inf_threshold else mant <? inf_threshold * 10 ^ (scale - e)).
 
 Definition convert (s : spelling) : outcome :=
@@ -105,3 +116,64 @@ Example literal_instances :
   convert (SDec [1;7;9;7;6;9;3;1;3;4;8;6;2;3;1;5;8;1] None (Some (false, [2;9;1]))) = OInvalid /\
   convert (SDec [0] (Some [0]) (Some (false, [9;9;9;9;9]))) = OFloat /\ convert (SDec [1] None (Some (true, [9;9;9;9;9]))) = OFloat.
 Proof. vm_compute. repeat split; reflexivity. Qed.
+
+(* ---- the shortcuts of dec_finite are sound *)
+Lemma val_lt_pow ds : digits_ok 10 ds -> 0 <= val 10 ds < 10 ^ Z.of_nat (length ds).
+Proof.
+  unfold val. intro H.
+  assert (forall acc n, 0 <= acc < 10 ^ n -> 0 <= n ->
+            0 <= fold_left (fun a d => a * 10 + d) ds acc < 10 ^ (n + Z.of_nat (length ds))) as G.
+  { induction H as [|d ds Hd _ IH]; intros acc n Ha Hn.
+    - cbn. now rewrite Z.add_0_r.
+    - cbn [fold_left length]. replace (n + Z.of_nat (S (length ds))) with ((n + 1) + Z.of_nat (length ds)) by lia.
+      apply IH; try lia. rewrite Z.pow_add_r by lia. change (10 ^ 1) with 10.
+      remember (10 ^ n) as p. lia. }
+  specialize (G 0 0). cbn [Z.pow Z.add] in G. apply G; lia.
+Qed.
+
+Lemma threshold_pos : 1 < inf_threshold. Proof. reflexivity. Qed.
+Lemma threshold_lt_pow : inf_threshold < 10 ^ 400. Proof. reflexivity. Qed.
+
+Theorem dec_finite_correct ip frac exp :
+  digits_ok 10 (ip ++ match frac with Some f => f | None => [] end) ->
+  (match exp with Some (_, ds) => digits_ok 10 ds | None => True end) ->
+  dec_finite ip frac exp = dec_finite_exact ip frac exp.
+Proof.
+  intros Hd He. unfold dec_finite, dec_finite_exact.
+  set (fd := match frac with Some f => f | None => [] end) in *.
+  set (mant := val 10 (ip ++ fd)). set (scale := Z.of_nat (length fd)). set (digits := Z.of_nat (length (ip ++ fd))).
+  pose proof (val_lt_pow _ Hd) as Hm. fold mant digits in Hm.
+  assert (0 <= scale) as Hs by (unfold scale; lia).
+  assert (scale <= digits) as Hsd by (unfold scale, digits; rewrite app_length; lia).
+  assert (0 <= match exp with Some (_, ds) => val 10 ds | None => 0 end) as Hep.
+  { destruct exp as [[n ds]|]; try lia. apply val_nonneg; auto; lia. }
+  destruct exp as [[neg ds]|]; cbn [fst snd] in *.
+  2:{ (* no exponent *)
+      destruct (mant =? 0) eqn:E0.
+      - apply Z.eqb_eq in E0. rewrite E0. destruct (scale <=? 0) eqn:E1.
+        + symmetry. apply Z.ltb_lt. pose proof threshold_pos. lia.
+        + symmetry. apply Z.ltb_lt. pose proof threshold_pos. assert (0 < 10 ^ (scale - 0)) by (apply Z.pow_pos_nonneg; lia). apply Z.mul_pos_pos; lia.
+      - assert (400 + scale <? 0 = false) as -> by (apply Z.ltb_ge; lia). reflexivity. }
+  set (e := val 10 ds) in *.
+  destruct (mant =? 0) eqn:E0.
+  - apply Z.eqb_eq in E0. rewrite E0. pose proof threshold_pos. destruct neg.
+    + symmetry. apply Z.ltb_lt. assert (0 < 10 ^ (scale + e)) by (apply Z.pow_pos_nonneg; lia). apply Z.mul_pos_pos; lia.
+    + destruct (scale <=? e) eqn:E1; symmetry; apply Z.ltb_lt.
+      * rewrite Z.mul_0_l. lia.
+      * apply Z.leb_gt in E1. assert (0 < 10 ^ (scale - e)) by (apply Z.pow_pos_nonneg; lia). apply Z.mul_pos_pos; lia.
+  - apply Z.eqb_neq in E0. assert (1 <= mant) by lia. destruct neg.
+    + destruct (digits <? e) eqn:E1; auto. apply Z.ltb_lt in E1. symmetry. apply Z.ltb_lt.
+      (* mant < 10^digits <= 10^(scale+e) <= threshold * 10^(scale+e) *)
+      assert (10 ^ digits <= 10 ^ (scale + e)) by (apply Z.pow_le_mono_r; lia).
+      assert (0 < 10 ^ (scale + e)) by (apply Z.pow_pos_nonneg; lia). pose proof threshold_pos.
+      apply Z.lt_le_trans with (10 ^ digits); [lia|]. apply Z.le_trans with (10 ^ (scale + e)); [lia|].
+      rewrite <- (Z.mul_1_l (10 ^ (scale + e))) at 1. apply Z.mul_le_mono_nonneg_r; lia.
+    + destruct (400 + scale <? e) eqn:E1; auto. apply Z.ltb_lt in E1.
+      assert (scale <=? e = true) as -> by (apply Z.leb_le; lia).
+      symmetry. apply Z.ltb_ge.
+      (* mant * 10^(e-scale) >= 10^(e-scale) >= 10^400 > threshold *)
+      assert (10 ^ 400 <= 10 ^ (e - scale)) by (apply Z.pow_le_mono_r; lia).
+      pose proof threshold_lt_pow. assert (0 < 10 ^ (e - scale)) by (apply Z.pow_pos_nonneg; lia).
+      apply Z.le_trans with (10 ^ (e - scale)); [lia|]. rewrite <- (Z.mul_1_l (10 ^ (e - scale))) at 1.
+      apply Z.mul_le_mono_nonneg_r; lia.
+Qed.
